@@ -25,7 +25,9 @@ INT_VALUES = [0, 1, 7, 2 ** 31, 2 ** 63, 10 ** 20]  # a negative number is not a
 FLOAT_VALUES = [0.0, 1.5, 2.25, 1e300, 1e-300, 123456789.123456789]
 BYTES_VALUES: List[bytes] = []  # the front end has no literal form for byte-array constants
 ENUM_VALUES = ["ok", "not-ok", "", "with space", "qu\"ote", "back\\slash", "ä", "UPPER", "upper", "new\nline",
-               "L\x000", "L\x00"]
+               "L\x000", "L\x00",
+               # braces: the from-string table is a plain dict literal, not an f-string
+               "{id}", "{", "}", "{{id}}", "{0}"]
 
 
 def _lit(v: Any) -> str:
